@@ -2,19 +2,28 @@
   C11 — property theorems.
     spec, operators, checkers : ShelxModel/C11Core.lean       model of the code : ShelxModel/C11.lean
     tabulated settings        : ShelxModel/C11Table.lean      helper lemmas     : ShelxProps/Lemmas/C11Closed.lean
+    kernel evaluations over the table, in pieces that build in parallel: ShelxProps/Lemmas/C11Tab*.lean (spec), C11Mod*.lean (model)
     centring table of the code: ShelxModel/Extracted/Latt.lean (REGENERATED from cards.py on every run)
 
   expand_perm    ∀ N S, ValidSetting N S → the list the code builds is a permutation (mod ℤ³) of the space group
   expand_card    … and has (1 + |S|) · mult N · (2 if N > 0) members
   expand_nodup   … each class once
   expand_closed  … and is closed under composition whenever the setting is (ClosedSetting)
+  expand_shifted ∀ u, … the same for the setting referred to an origin moved by u (`shiftSetting`): translations t + (1 − R) u
+                 of ANY denominator; the list the code builds is the moved group
   lattTable_matches_manual   the regenerated `lattdict` is the SHELXL manual's LATT table (decide, every run)
+  tabulated_settings_shifted            … and the same at every origin (∀ u : ℚ³)
   tabulated_settings_valid_and_closed   43 real settings (P I R F A B C, centric/acentric, all crystal systems):
                  valid, closed, model expansion = the group with the order International Tables A give
 -/
 import ShelxModel.C11
 import ShelxModel.C11Table
 import ShelxProps.Lemmas.C11Closed
+import ShelxProps.Lemmas.C11Shift
+import ShelxProps.Lemmas.C11ModA
+import ShelxProps.Lemmas.C11ModB
+import ShelxProps.Lemmas.C11ModC
+import ShelxProps.Lemmas.C11ModD
 import Mathlib.Tactic.Ring
 import Mathlib.Tactic.Linarith
 import Mathlib.Tactic.Push
@@ -312,15 +321,26 @@ theorem expand_duplicates_outside_valid :
 
 /-! ### the tabulated settings -/
 
-/-- model side, evaluated in the kernel with the REGENERATED centring table: the expansion exists, has the number
-    of operators International Tables A give for the group, and no class twice -/
-def modelOK (e : Setting) : Bool :=
-  match expand e.N e.S with
-  | none => false
-  | some L => L.length == e.order && nodupB L
-
-set_option maxRecDepth 100000 in
-theorem settings_modelOK : settings.all modelOK = true := by decide +kernel
+/-- model side, evaluated in the kernel with the REGENERATED centring table (`modelOK`, ShelxModel/C11.lean: the
+    expansion exists, has the number of operators International Tables A give for the group, and no class twice);
+    the pieces `tabA … tabF` (ShelxProps/Lemmas/C11Mod*.lean) exhaust the table -/
+theorem settings_modelOK : ∀ e ∈ settings, modelOK e = true := by
+  intro e he
+  rcases mem_take_or_drop 30 he with h | h
+  · exact List.all_eq_true.mp tabA_modelOK e h
+  rcases mem_take_or_drop 7 h with h | h
+  · exact List.all_eq_true.mp tabB_modelOK e h
+  rw [List.drop_drop] at h
+  rcases mem_take_or_drop 3 h with h | h
+  · exact List.all_eq_true.mp tabC_modelOK e h
+  rw [List.drop_drop] at h
+  rcases mem_take_or_drop 1 h with h | h
+  · exact List.all_eq_true.mp tabD_modelOK e h
+  rw [List.drop_drop] at h
+  rcases mem_take_or_drop 1 h with h | h
+  · exact List.all_eq_true.mp tabE_modelOK e h
+  rw [List.drop_drop] at h
+  exact List.all_eq_true.mp tabF_modelOK e h
 
 /-- **tabulated_settings_valid_and_closed** — for each of the 43 tabulated space-group settings: it is a valid
     setting; its spec list is closed under composition mod ℤ³ and has the order of the group (ITA); the model's
@@ -331,11 +351,56 @@ theorem tabulated_settings_valid_and_closed : ∀ e ∈ settings,
     ∃ L, expand e.N e.S = some L ∧ L.length = e.order ∧ (L.map cls).Nodup ∧ Closed L ∧
       L.map cls ~ (fullGroup e.N e.S).map cls := by
   intro e he
-  obtain ⟨hv, hc, _⟩ := specOK_sound e (settings_specOK e he)
+  obtain ⟨hv, hc, _⟩ := settings_spec e he
   obtain ⟨L, hL, hp⟩ := expand_perm e.N e.S hv
-  have hm := List.all_eq_true.mp settings_modelOK e he
+  have hm := settings_modelOK e he
   simp only [modelOK, hL, Bool.and_eq_true, beq_iff_eq] at hm
   exact ⟨hv, hc, L, hL, hm.1, nodupB_sound L hm.2, closed_of_perm hp hc, hp⟩
+
+/-! ### every origin -/
+
+/-- **expand_shifted** — a valid closed setting referred to ANY other origin (`shiftSetting u N S`: for N < 0 the SYMM
+    operators moved, `t + (1 − R) u`; for N > 0 LATT −N with the off-origin inversion and the inverted operators as SYMM
+    lines): the list the code builds from those LATT/SYMM lines exists, has no class twice, is closed under composition
+    modulo ℤ³, has as many operators as the group, and is, class by class, the group of `LATT N / SYMM S` with every
+    operator referred to the new origin. No hypothesis on `u`: the translations may have any denominator. -/
+theorem expand_shifted (u : Vec) (N : Int) (S : List Op) (h : ValidSetting N S) (hc : ClosedSetting N S) :
+    ∃ L, expand (shiftSetting u N S).1 (shiftSetting u N S).2 = some L ∧ (L.map cls).Nodup ∧ Closed L ∧
+      L.length = (fullGroup N S).length ∧ L.map cls ~ ((fullGroup N S).map (shiftOp u)).map cls := by
+  obtain ⟨hv', hc'⟩ := shiftSetting_valid_closed u N S h hc
+  obtain ⟨L, hL, hp⟩ := expand_perm _ _ hv'
+  have hp2 := hp.trans ((fullGroup_shiftSetting_perm u N S).map cls)
+  refine ⟨L, hL, hp.nodup_iff.mpr hv'.2, closed_of_perm hp hc', ?_, hp2⟩
+  simpa using hp2.length_eq
+
+/-- C2/c (LATT 7, SYMM -X, Y, 1/2-Z) with the origin moved by (1/8, 0, 1/16) is LATT -7 with
+    SYMM 1/4-X, -Y, 1/8-Z / 1/4-X, Y, 5/8-Z / X, -Y, -1/2+Z -/
+example : shiftSetting ⟨1/8, 0, 1/16⟩ 7 [mkOp (-1) 0 0 0 1 0 0 0 (-1) 0 0 (1/2)] =
+    (-7, [mkOp (-1) 0 0 0 (-1) 0 0 0 (-1) (1/4) 0 (1/8), mkOp (-1) 0 0 0 1 0 0 0 (-1) (1/4) 0 (5/8),
+          mkOp 1 0 0 0 (-1) 0 0 0 1 0 0 (-1/2)]) := by decide +kernel
+
+/-- … and the code's list for it has the 8 operators of C2/c, closed under composition -/
+example : ∃ L, expand (-7) [mkOp (-1) 0 0 0 (-1) 0 0 0 (-1) (1/4) 0 (1/8), mkOp (-1) 0 0 0 1 0 0 0 (-1) (1/4) 0 (5/8),
+      mkOp 1 0 0 0 (-1) 0 0 0 1 0 0 (-1/2)] = some L ∧ L.length = 8 ∧ Closed L := by
+  have hv : ValidSetting 7 [mkOp (-1) 0 0 0 1 0 0 0 (-1) 0 0 (1/2)] ∧ ClosedSetting 7 [mkOp (-1) 0 0 0 1 0 0 0 (-1) 0 0 (1/2)] := by
+    decide +kernel
+  obtain ⟨L, hL, _, hcl, hlen, _⟩ := expand_shifted ⟨1/8, 0, 1/16⟩ 7 _ hv.1 hv.2
+  have e : shiftSetting ⟨1/8, 0, 1/16⟩ 7 [mkOp (-1) 0 0 0 1 0 0 0 (-1) 0 0 (1/2)] =
+      (-7, [mkOp (-1) 0 0 0 (-1) 0 0 0 (-1) (1/4) 0 (1/8), mkOp (-1) 0 0 0 1 0 0 0 (-1) (1/4) 0 (5/8),
+            mkOp 1 0 0 0 (-1) 0 0 0 1 0 0 (-1/2)]) := by decide +kernel
+  rw [e] at hL
+  exact ⟨L, hL, by rw [hlen]; decide +kernel, hcl⟩
+
+/-- **tabulated_settings_shifted** — each of the tabulated space-group settings, referred to ANY origin (u ∈ ℚ³):
+    from the LATT/SYMM lines of the moved setting the model builds a list that has the order International Tables A
+    give, each class once, is closed under composition mod ℤ³ and is the moved group. -/
+theorem tabulated_settings_shifted : ∀ e ∈ settings, ∀ u : Vec,
+    ∃ L, expand (shiftSetting u e.N e.S).1 (shiftSetting u e.N e.S).2 = some L ∧ L.length = e.order ∧
+      (L.map cls).Nodup ∧ Closed L ∧ L.map cls ~ ((fullGroup e.N e.S).map (shiftOp u)).map cls := by
+  intro e he u
+  obtain ⟨hv, hc, hl⟩ := settings_spec e he
+  obtain ⟨L, hL, hnd, hcl, hlen, hp⟩ := expand_shifted u e.N e.S hv hc
+  exact ⟨L, hL, by rw [hlen, hl], hnd, hcl, hp⟩
 
 theorem settings_count : settings.length = 43 := by decide
 
